@@ -3,10 +3,18 @@
 From Coq Require Import List NArith.
 From Quill Require Import BT.BTModel BT.BTProofs Queue.BQDefs Backend.BEDefs Backend.BEDispatch Backend.BEFault Backend.BEBt.
 Import ListNotations.
+From Quill Require TieMBE.
 From Quill Require TieBE ExpectedBE.
 
 (* T-src: the BackendWorker methods this property's part of M-BE re-states are, statement by statement, the ones the model
    was written against and compared with (ExpectedBE.v; the whole loop is tied in Properties_C03.C03_tie_backend_loop) *)
+(* T-src: the two abstractions M-BE makes - a thread's queue is an atomic FIFO (C01 / C02), registration and cache refresh
+   are atomic steps (registration protocol of C03) - hold for the memory orders, statement orders and shapes found in the
+   source (TieMBE.v spells the facts out) *)
+Theorem C18_tie_MBE_abstractions : Quill.TieMBE.MBE_abstractions_hold.
+Proof. exact Quill.TieMBE.mbe_abstractions. Qed.
+Print Assumptions C18_tie_MBE_abstractions.
+
 Theorem C18_tie_backend_methods :
   QuillGen.SrcFacts.sk_be_process_transit_event = Quill.ExpectedBE.sk_be_process_transit_event.
 Proof. exact TieBE.src_be_process_transit_event. Qed.
